@@ -401,10 +401,11 @@ func outLast() any                               { return nil }
 //@ func collection
 //@ props C15
 //@ ensures [C15 C19] object-members: is[map[string]any](v) ==> ncalls(memberValues) == 1 && sameSlice(r0, callret[[]any](memberValues, 0))
-//@ ensures [C15] array: is[[]any](v) ==> sameSlice(r0, as[[]any](v))
+//@ ensures [C15] array: is[[]any](v) && as[[]any](v) != nil ==> sameSlice(r0, as[[]any](v))
+//@ ensures [C15] nil-array-is-empty: is[[]any](v) && as[[]any](v) == nil ==> r0 != nil && len(r0) == 0
 //@ ensures [C15] scalar: !is[[]any](v) && !is[map[string]any](v) ==> r0 == nil
 //@ ensures [C15] object: is[map[string]any](v) ==> len(r0) == len(as[map[string]any](v))
-//@ ensures [C15] nil-iff-scalar: (is[[]any](v) && as[[]any](v) != nil) || is[map[string]any](v) ==> r0 != nil
+//@ ensures [C15] nil-iff-scalar: is[[]any](v) || is[map[string]any](v) ==> r0 != nil
 
 //@ func (*Executor).executeAnyItem
 //@ props C01 C07 C15
